@@ -42,17 +42,21 @@ def run(ctx):
     ins = s.calls(fn, pred=lambda n, c, b, i: c.endswith("::insert") and "btree" in c)
     ctx.floor("C05.insert-sites", len(ins), 7)
     closure_paths = {f.path for f in ctx.F.closures_of(fn.path)}
+    from ..srules import leaf_values as _lv
     for b, info in ins:
         ev = info["args"][1]
+        # the event inserted may reach the insert as the payload of a small result value (a helper's "Accepted(event)"):
+        # what was matched and screened is then the value that flowed into that payload
+        evs = [ev] + [x for x in (_lv(an, ev) or []) if x != ev]
         good_m, good_s = [], []
         for node in an.edge_cond:
             for f in s.edge_facts(fn, node):
                 if f[0] == "true":
                     for c in find_values(f[1], lambda x: x[0] == "call" and x[1].endswith("::event_matches")):
-                        if c[2][0] == filt and c[2][1] == ev:
+                        if c[2][0] == filt and c[2][1] in evs:
                             good_m.append(node)
                     c = f[1]
-                    if c[0] == "call" and c[1] in closure_paths and contains_value(c[2], lambda x: x == ev):
+                    if c[0] == "call" and c[1] in closure_paths and contains_value(c[2], lambda x: x in evs):
                         good_s.append(node)
         okm = s.must_pass(fn, b, good_m)
         oks = s.must_pass(fn, b, good_s)
@@ -465,8 +469,9 @@ def other_exits(ctx, s, fn, filt):
             if lim:
                 continue
             if any((relation(f) or ("",))[0] == "<" and contains_value(relation(f)[1], lambda x: x[0] == "call" and x[1].endswith("::created_at"))
-                   for f in facts):
-                continue        # older than `since`: everything further is older still
+                   for f in list(facts) + inner):
+                continue        # older than `since`: everything further is older still (also when the comparison was made
+                                # first and its outcome carried here in a small result value)
             n += 1
             good = []
             for node in an.edge_cond:
